@@ -24,6 +24,7 @@ class Gen(S.Algebra):
         self.assumed = []        # symbolic early-return guards assumed false
         self.assume_no_early_return = assume_no_early_return
         self.cache = {}
+        self.on_call = None      # hook(call node, env) for calls met as statements
 
     # ---- locations
     def ptr_of(self, e, env):
@@ -249,6 +250,9 @@ class Gen(S.Algebra):
                     if p is not None:
                         env[l0.n] = p
                     return True
+                r0 = _strip_casts(rhs)
+                if l0.k == 'MemberExpr' and r0 is not None and r0.k == 'CallExpr' and (r0.callee or '').split('::')[-1] in ('allocate', 'allocate_clear', 'reallocate'):
+                    return True         # (re)allocation of a member array: the abstract array stays the same location
                 raise S.Unsupported('pointer store `%s`' % s.text()[:50])
             val = self.value(rhs, env)
             loc = self.lvalue(l0, env)
@@ -291,6 +295,8 @@ class Gen(S.Algebra):
             raise S.Unsupported('assignment target `%s`' % lhs.text()[:50])
         if k in ('CallExpr', 'CXXMemberCallExpr'):
             self.calls.append((s.callee, s))
+            if self.on_call is not None:
+                self.on_call(s, env)
             return True
         raise S.Unsupported('statement %s `%s`' % (k, s.text()[:50]))
 
